@@ -581,6 +581,26 @@ var skeletonFuncs = []string{
 	"reverseChannels.add", "reverseChannels.remove",
 }
 
+// stripRecv removes "<receiver>." from a rendered expression of method fnName, so that the
+// regenerated text does not depend on how the receiver is called
+func stripRecv(p *pkgInfo, fnName, text string) string {
+	fn := p.funcs[fnName]
+	if fn == nil || fn.Recv == nil || len(fn.Recv.List) == 0 || len(fn.Recv.List[0].Names) == 0 {
+		return text
+	}
+	r := fn.Recv.List[0].Names[0].Name + "."
+	var sb strings.Builder
+	for i := 0; i < len(text); {
+		if strings.HasPrefix(text[i:], r) && (i == 0 || !(text[i-1] == '_' || text[i-1] == '.' || (text[i-1] >= 'a' && text[i-1] <= 'z') || (text[i-1] >= 'A' && text[i-1] <= 'Z') || (text[i-1] >= '0' && text[i-1] <= '9'))) {
+			i += len(r)
+			continue
+		}
+		sb.WriteByte(text[i])
+		i++
+	}
+	return sb.String()
+}
+
 func coqBytes(s string) string {
 	var b []string
 	for i := 0; i < len(s); i++ {
@@ -656,14 +676,15 @@ func main() {
 	b.WriteString("\n(* the reverse-tunnel server's shutdown state machine *)\n")
 	fmt.Fprintf(&b, "Definition rs_states : list string := %s.\n", coqStrList(iotaBlock(p, "stateActive")))
 	fmt.Fprintf(&b, "Definition rs_guards : list (string * string) := [(\"isClosing\", \"%s\"); (\"isClosed\", \"%s\"); (\"addInstance\", \"%s\"); (\"Stop\", \"%s\"); (\"GracefulStop\", \"%s\")].\n",
-		condText(p, "ReverseTunnelServer.isClosing", -1), condText(p, "ReverseTunnelServer.isClosed", -1),
-		condText(p, "ReverseTunnelServer.addInstance", 0), condText(p, "ReverseTunnelServer.Stop", 0), condText(p, "ReverseTunnelServer.GracefulStop", 0))
+		stripRecv(p, "ReverseTunnelServer.isClosing", condText(p, "ReverseTunnelServer.isClosing", -1)), stripRecv(p, "ReverseTunnelServer.isClosed", condText(p, "ReverseTunnelServer.isClosed", -1)),
+		stripRecv(p, "ReverseTunnelServer.addInstance", condText(p, "ReverseTunnelServer.addInstance", 0)), stripRecv(p, "ReverseTunnelServer.Stop", condText(p, "ReverseTunnelServer.Stop", 0)),
+		stripRecv(p, "ReverseTunnelServer.GracefulStop", condText(p, "ReverseTunnelServer.GracefulStop", 0)))
 	fmt.Fprintf(&b, "Definition skel_ReverseTunnelServer_Stop : list string := %s.\n", coqStrList(skeleton(p.funcs["ReverseTunnelServer.Stop"])))
 	fmt.Fprintf(&b, "Definition skel_ReverseTunnelServer_GracefulStop : list string := %s.\n", coqStrList(skeleton(p.funcs["ReverseTunnelServer.GracefulStop"])))
 	b.WriteString("\n(* which expression sizes each flow-control window *)\n")
 	fmt.Fprintf(&b, "Definition window_args : list (string * string) := [(\"server.sender\", \"%s\"); (\"server.receiver\", \"%s\"); (\"client.sender\", \"%s\"); (\"client.receiver\", \"%s\")].\n",
 		callArg(p, "tunnelServer.createStream", "newSender", 1), callArg(p, "tunnelServer.createStream", "newReceiver", -1),
-		callArg(p, "tunnelChannel.allocateStream", "newSender", 1), callArg(p, "tunnelChannel.allocateStream", "newReceiver", -1))
+		stripRecv(p, "tunnelChannel.allocateStream", callArg(p, "tunnelChannel.allocateStream", "newSender", 1)), callArg(p, "tunnelChannel.allocateStream", "newReceiver", -1))
 	old, _ := os.ReadFile(os.Args[2])
 	if string(old) != b.String() {
 		if err := os.WriteFile(os.Args[2], []byte(b.String()), 0o644); err != nil {
